@@ -39,6 +39,8 @@ def gen_cases(rng, n):
             rng.shuffle(e)
             c["expected"] = e
             c["fill_value"] = -99
+        if "expected" in c and rng.random() < 0.4:
+            c["expected_as"] = rng.choice(["pd.Index", "list"])
         if "arg" in func:
             c["engine"] = "numpy"
         plan = rng.choice(["eager", "eager", "map-reduce", "cohorts", "blockwise", "blockwise", "auto"])
@@ -68,6 +70,8 @@ def gen_cases(rng, n):
                 c["chunks"] = [list(G.random_composition(rng, m, 4))]
             if c["sort"] is False and "expected" not in c:
                 c["unordered"] = True    # order unspecified for chunked input without expected_groups
+            if "expected" in c and plan in ("map-reduce", "auto") and rng.random() < 0.4:
+                c["by_dask"] = True      # labels held in a dask array: the requested labels are all that is known up front
         out.append(c)
     return out
 
